@@ -1,3 +1,4 @@
+import DSV.FactsOK.SrcC09
 import DSV.Generated.Facts
 /-!
 C09 — the `validFrom` assignments, the overlap test and the bootstrap branch conditions extracted
